@@ -38,7 +38,7 @@ package errors
 //@   ensures [success_untouched] (panicked == 0 && nextRet < 400 && result1 == nil) ==> (result0 == nextRet && errBodies == old(errBodies))
 //@   ensures [panic_contained] panicked == 1 ==> (result0 == 0 && hw >= old(hw) + 1 && lastStatus == 500)
 
-//@ unit setup_sweep props=C11 files=setup.go nilchecks=on nonnil_params=on dispenser_variants=on exclude=`errors\.(errorsParse|errorsParse\$1|setup)$` filter=`.`
+//@ unit setup_sweep props=C11,C08 files=setup.go nilchecks=on nonnil_params=on dispenser_variants=on exclude=`errors\.(errorsParse|errorsParse\$1|setup)$` filter=`.`
 //@ // Safety sweep of this directive's setup code: index, slice, division, nil-map store, nil dereference, explicit panic,
 //@ // and termination of the loops driven by the token cursor. No functional contract; callees in the dispenser through their contracts.
 //@ use casketfile/contracts_verif.go:dispenser_api
